@@ -211,7 +211,11 @@ def units(tier):
     # ... and around a stratified sample of all 7-smooth numbers up to 2^62
     if tier != "quick":
         T = [s for s in table() if 2**20 <= s <= 2**62]
+        have = {u.name for u in us}
         for s in T[::97]:
             for which in ("next", "prev"):
-                us.append(FastLen(which, s - 2**12, s + 2**12))
+                u = FastLen(which, s - 2**12, s + 2**12)
+                if u.name not in have:
+                    have.add(u.name)
+                    us.append(u)
     return us
